@@ -878,6 +878,11 @@ def c15(ctx):
         k0 = int(rng.integers(0, 30))
         inside = w0[(w0.Date >= start - pd.Timedelta(days=k0)) & (w0.Date <= end + pd.Timedelta(days=int(rng.integers(0, 30))))]
         trans.append(("trimmed-rows", inside.reset_index(drop=True)))
+        lead = w0[w0.Date < start]
+        if len(lead) > 12:
+            # extra leading rows that are not contiguous (a record kept without leap days / two periods concatenated)
+            drop = lead.index[[3, 4, len(lead) // 2, len(lead) - 5]]
+            trans.append(("gapped-leading-rows", w0.drop(drop).reset_index(drop=True)))
         for name, wt in trans:
             o2 = S.build_objects(sc); o2["weather_df"] = wt
             r2 = run_full(objects=o2)
@@ -888,7 +893,32 @@ def c15(ctx):
             elif not tables_equal(base, r2):
                 viols.append(V("C15", f"{name}-differs", sc, f"equivalent weather table ({name}) changes the results",
                                diff=first_diff(base, r2), columns=[str(c) for c in wt.columns]))
-    return viols, dict(evaluations=evals, distinct_nontrivial=nontriv, c15_samples=[dict(transformations=["permute-columns", "extra-columns", "reindexed", "string-index", "trimmed-rows"])])
+    # "whatever the row offset": a model object re-used for a later window of the same length (the full table assigned
+    # again through the public setter) must read that window's records — compared with a fresh model for the window
+    try:
+        from aquacrop import AquaCropModel
+        sc_a = dict(id="c15-reuse", start="1982/05/01", end="1982/10/30", weather={"kind": "file", "name": "champion_climate.txt"},
+                    soil={"type": "SandyLoam"}, crop={"name": "Maize", "planting": "05/01", "overrides": {}}, irr={"method": 0},
+                    off_season=False)
+        sc_b = dict(sc_a, start="1983/05/01", end="1983/10/30")
+        fresh_b = run_full(sc_b)
+        mdl = AquaCropModel(**S.build_objects(sc_a))
+        mdl.run_model(till_termination=True)
+        mdl.sim_start_time, mdl.sim_end_time = sc_b["start"], sc_b["end"]
+        mdl.weather_df = S.weather_of(sc_b)
+        reused_b = run_full(model=mdl)
+        evals += 1; nontriv += 1
+        if fresh_b.error or reused_b.error:
+            if bool(fresh_b.error) != bool(reused_b.error):
+                viols.append(V("C15", "reused-model-other-window-raises", sc_b, "a model re-used for another window of equal length raises / stops raising",
+                               fresh=fresh_b.error, reused=reused_b.error))
+        elif not tables_equal(fresh_b, reused_b):
+            viols.append(V("C15", "reused-model-other-window-differs", sc_b,
+                           "a model re-used for another window of equal length does not read that window's weather records",
+                           diff=first_diff(fresh_b, reused_b)))
+    except Exception:  # noqa: BLE001
+        pass
+    return viols, dict(evaluations=evals, distinct_nontrivial=nontriv, c15_samples=[dict(transformations=["permute-columns", "extra-columns", "reindexed", "string-index", "trimmed-rows", "gapped-leading-rows", "re-used model"])])
 
 
 # ------------------------------------------------------------------------------------------ C20
@@ -1367,6 +1397,20 @@ def c17(ctx):
                 if abs(tr - t) > 1e-6 * max(1.0, t):
                     viols.append(V("C17", "required-time-inverse", pseudo, "time-to-reach-cover does not invert the growth curve", crop=cname, t=float(t), treq=float(tr)))
             prev = v
+        # stress-adjusted starting covers (the pair the model uses after early stress): also at or above half of CCx
+        for frac in (0.3, 0.5, 0.6, 0.9):
+            cc0a = frac * c.CCx
+            prev = None
+            for t in ts[:: (2 if tier == "quick" else 1)]:
+                v = cc_development(cc0a, c.CCx, cgc, cdc, float(t), "Growth", c.CCx)
+                evals += 1
+                if v < -eps or v > c.CCx + 1e-12 or (prev is not None and v < prev - 1e-12):
+                    viols.append(V("C17", "cc-growth-adjusted-start", pseudo, "growth curve from an adjusted initial cover leaves [0, CCx] or decreases", crop=cname, cc0=float(cc0a), t=float(t), cc=float(v)))
+                if cc0a < v < c.CCx * (1 - 1e-9) and cgc > 0:
+                    tr = cc_required_time(float(v), cc0a, c.CCx, cgc, cdc, "CGC")
+                    if abs(tr - t) > 1e-6 * max(1.0, t):
+                        viols.append(V("C17", "required-time-inverse-adjusted-start", pseudo, "time-to-reach-cover does not invert the growth curve for an adjusted initial cover", crop=cname, cc0=float(cc0a), t=float(t), treq=float(tr)))
+                prev = v
         prev = None
         for t in ts:
             v = cc_development(cc0, c.CCx, cgc, cdc, float(t), "Decline", c.CCx)
@@ -1396,6 +1440,22 @@ def c17(ctx):
             if prev is not None and f < prev - 1e-12:
                 viols.append(V("C17", "fco2-monotone", pseudo, "CO2 factor decreases with concentration", crop=cname, conc=conc, f=float(f), prev=float(prev)))
             prev = f
+        # a user-chosen reference concentration: the factor is 1 at THAT reference and non-decreasing around it
+        for ref in (330.0, 400.0):
+            prev = None
+            for conc in sorted(set(concs) | {ref, ref + 1.0, ref - 1.0, ref + 40.0}):
+                try:
+                    f = FI.FUNC(float(conc), ref, c)
+                except Exception:  # noqa: BLE001
+                    f = None
+                if f is None:
+                    break
+                evals += 1
+                if abs(conc - ref) < 1e-12 and abs(f - 1.0) > 1e-12:
+                    viols.append(V("C17", "fco2-at-user-ref", pseudo, "CO2 factor is not 1 at the user's reference concentration", crop=cname, ref=ref, f=float(f)))
+                if prev is not None and f < prev - 1e-12:
+                    viols.append(V("C17", "fco2-monotone-user-ref", pseudo, "CO2 factor decreases with concentration (user reference)", crop=cname, ref=ref, conc=float(conc), f=float(f), prev=float(prev)))
+                prev = f
         # the same lattice through the season-start reset (the factor in force from the second season on)
         from .lines import fco2_reset as FR
         prev = None
